@@ -6,6 +6,8 @@
 import Wharf.Gen.Constants
 import Wharf.Gen.Kernels
 import Wharf.Model.Rsync
+import Wharf.Model.Patch
+import Wharf.Model.Overlay
 
 namespace Wharf.GenTies
 open Wharf
@@ -53,5 +55,24 @@ theorem nextPow2_ge (v : Nat) (h : 1 ≤ v) : v ≤ Gen.nextPowerOf2 v := by
   apply Nat.succ_le_succ
   exact Nat.le_trans (Nat.le_trans (Nat.le_trans (Nat.le_trans Nat.left_le_or Nat.left_le_or)
     Nat.left_le_or) Nat.left_le_or) Nat.left_le_or
+
+/-- The field numbers and enum values the message-level model uses are those of pwr.proto / bsdiff.proto. -/
+theorem proto_fields :
+    Patch.fSyncHeaderType = Gen.SyncHeader_type ∧ Patch.fSyncHeaderFileIndex = Gen.SyncHeader_fileIndex ∧
+    Patch.fBsdiffTargetIndex = Gen.BsdiffHeader_targetIndex ∧
+    Patch.fOpType = Gen.SyncOp_type ∧ Patch.fOpFileIndex = Gen.SyncOp_fileIndex ∧
+    Patch.fOpBlockIndex = Gen.SyncOp_blockIndex ∧ Patch.fOpBlockSpan = Gen.SyncOp_blockSpan ∧
+    Patch.fOpData = Gen.SyncOp_data ∧
+    Patch.fCtrlAdd = Gen.Control_add ∧ Patch.fCtrlCopy = Gen.Control_copy ∧
+    Patch.fCtrlSeek = Gen.Control_seek ∧ Patch.fCtrlEof = Gen.Control_eof ∧
+    Patch.opBlockRange = (Gen.SyncOp_Type_BLOCK_RANGE : Int) ∧ Patch.opData = (Gen.SyncOp_Type_DATA : Int) ∧
+    Patch.heyYouDidIt = (Gen.SyncOp_Type_HEY_YOU_DID_IT : Int) ∧
+    Patch.kindRsync = (Gen.SyncHeader_Type_RSYNC : Int) ∧ Patch.kindBsdiff = (Gen.SyncHeader_Type_BSDIFF : Int) := by
+  decide
+
+/-- The overlay constants the C14 theorems are instantiated with. -/
+theorem overlay_consts :
+    Gen.overlay_overlayBufSize = 131072 ∧ Gen.overlay_overlaySameThreshold = 8192 ∧ 0 < Gen.overlay_overlayBufSize := by
+  decide
 
 end Wharf.GenTies
